@@ -91,6 +91,18 @@ def attr_source(s):
     return prop.source == s and prop.name == name and name.isidentifier()
 
 
+def attr_source_required_only(s):
+    """a name that only appears under "required" (typed object): the synthetic property records the JSON name"""
+    from vf.common import parse_s, accepts
+
+    el = parse_s({"type": "object", "title": "T", "required": [s]})
+    props = el.properties
+    if len(props) != 1:
+        return False
+    name, prop = list(props.items())[0]
+    return prop.source == s and prop.name == name and accepts(el, {s: 1}) and not accepts(el, {})
+
+
 def attr_distinct(s1, s2):
     from statham.schema.parser import _parse_attribute_name
 
@@ -176,6 +188,10 @@ def harnesses(ctx) -> List[H]:
                  timeout=300, group="attr", covers="every reserved attribute name and keyword, plain and with a trailing underscore"))
     hs.append(mk("c12_attr_source_ascii1", "s: str", ["len(s) <= 1", "all(ord(c) < 128 for c in s)"] + ex_e, "return attr_source(s)", timeout=300, group="attr",
                  covers="JSON name stays recorded as source; property bound under the mapped name"))
+    hs.append(mk("c12_attr_source_required_only_ascii1", "s: str", ["len(s) == 1", "ord(s[0]) < 128"], "return attr_source_required_only(s)", timeout=400, group="attr",
+                 covers="names that occur only under required: JSON name recorded, value under that name accepted"))
+    hs.append(mk("c12_attr_source_required_only_pool", "i: int", ["0 <= i < 8"], "pool = ('my-prop', 'class', '$ref', '1st', 'two words', '__init__', 'a.b', 'default')\nreturn attr_source_required_only(pool[concretize_int(i, 0, 7)]) and attr_source(pool[concretize_int(i, 0, 7)])", timeout=200, group="attr",
+                 covers="typical renamed names, declared and required-only"))
     # ---- attribute names: siblings
     ex_c = ctx.known("C12-attr-collision")
     dom1 = ["len(s1) == 1", "len(s2) == 1", "s1 != s2", "all(ord(c) < 128 for c in s1 + s2)"]
